@@ -515,7 +515,7 @@ func (r *runner) policyStream(rng *rand.Rand) error {
 		default:
 			p = vd.GenValid(rng, *profile)
 		}
-		if (*profile == "defects" || *profile == "mix" || *profile == "names") && rng.Intn(6) == 0 {
+		if (*profile == "defects" || *profile == "mix" || *profile == "names" || *profile == "conds") && rng.Intn(6) == 0 {
 			// a policy value that has been assembled for another architecture before
 			p.WarmArch = vd.TableArches[rng.Intn(len(vd.TableArches))]
 		}
